@@ -225,6 +225,33 @@ func expectedMemRows(mem memory.Memory) []ExpRow {
 	return rows
 }
 
+// rowsFromModel: expected rows from an independent byte model.
+func rowsFromModel(m map[uint64]byte) []ExpRow {
+	idx := map[uint64]int{}
+	var rows []ExpRow
+	for a, b := range m {
+		w := a &^ 15
+		i, ok := idx[w]
+		if !ok {
+			var r ExpRow
+			r.Begin = w
+			for k := range r.Cells {
+				r.Cells[k] = ".."
+			}
+			rows = append(rows, r)
+			i = len(rows) - 1
+			idx[w] = i
+		}
+		rows[i].Cells[a-w] = fmt.Sprintf("%02X", b)
+	}
+	for i := 1; i < len(rows); i++ {
+		for j := i; j > 0 && rows[j-1].Begin > rows[j].Begin; j-- {
+			rows[j-1], rows[j] = rows[j], rows[j-1]
+		}
+	}
+	return rows
+}
+
 // ---- register view ----
 
 var regRe = regexp.MustCompile(`(\S+): 0x([0-9a-fA-F]+)`)
